@@ -1,17 +1,28 @@
 (* C05 -- declared maxima and available bytes are enforced.
-   Reader level, for every buffer, count and maximum: a count above the maximum is rejected
-   with InvalidLength before anything else happens; a count whose (padded) payload is not
-   present is rejected with InvalidLength; a count equal to the maximum with the payload
-   present is accepted.  That the emitted call carries the declared maximum (literal or named
-   constant, inline or through a typedef) is Emit.decode_array, tied by K2 on every bounded
-   declarator form; the typedef'd variable-length opaque loses its bound in Typedef::new
-   (finding F3, C05_refuted_F3).  PARTIAL: "no strict prefix of a valid encoding is accepted"
-   is established by the correspondence K3 + the search over every byte-granular prefix, not by
-   a theorem.  Proofs in XdrProofs.RuntimeProofs. *)
-From XdrProofs Require Import RuntimeProofs.
+   C05_no_prefix: for every specification satisfying sup, every declared type and every
+   well-typed value with size-exact array elements, EVERY strict prefix (byte granularity) of
+   its RFC 4506 encoding is rejected by the emitted decoder with Error::InvalidLength.
+   A value that sits exactly on a declared maximum is well typed, so C01_roundtrip says it is
+   accepted.  Reader level, for every buffer, count and maximum: a count above the maximum is
+   InvalidLength before anything else happens; a count whose padded payload is not present is
+   InvalidLength.  That the emitted call carries the declared maximum (literal or constant,
+   inline or through a typedef) is Emit.decode_array, tied by K2 on every bounded declarator;
+   the typedef'd variable-length opaque loses its bound in Typedef::new (finding F3).
+   Proofs in XdrProofs.NoPrefix / RuntimeProofs. *)
+From XdrProofs Require Import RuntimeProofs NoPrefix.
 From XdrModel Require Import Emit Walk.
 Open Scope N_scope.
 Open Scope list_scope.
+
+Theorem C05_no_prefix :
+  forall (A : ast) (md : module_ir),
+    gen A = EOk md -> sup A ->
+    forall (n : string) (x : xval) (fuel : nat) (a o : N) (l : list resv) (p : bytes),
+      TypedN A n x -> (need x <= fuel)%nat -> step_exact x = true ->
+      (exists q, enc x = p ++ q /\ q <> []) ->
+      exists s', dec md fuel n (mk a o p l) = Err InvalidLength s'.
+Proof. exact no_prefix. Qed.
+Print Assumptions C05_no_prefix.
 
 Theorem C05_opaque_over_max :
   forall a o w rest l m,
